@@ -1013,3 +1013,9 @@ mod test {
         assert_eq!(snap.items().collect::<Vec<_>>(), &[item][..]);
     }
 }
+
+#[cfg(kani)]
+mod verif_kani {
+    use super::*;
+    include!(concat!(env!("LIBTW2_VERIF_HARNESS"), "/snapshot_snap.rs"));
+}
